@@ -306,9 +306,11 @@ theorem kcentersFitFull_spec {nClusters nInit maxIter : Int} {bipartite : Bool} 
     {k : KFitted} {calls : Nat}
     (h : kcentersFitFull nClusters nInit maxIter bipartite nRow nCol pos chooseOf classify idxMax = .ok (k, calls))
     (hch : ∀ i, ChoiceOK (chooseOf i))
-    (hcl : ∀ i centers, centers.length = nClusters.toNat → centers.Nodup →
-      (classify i centers).length = (if bipartite then nRow + nCol else nRow) ∧
-      ∀ l ∈ classify i centers, l < nClusters.toNat) :
+    (hcl : ∀ mask, kcentersChecks nClusters nInit bipartite nRow nCol pos = .ok mask → 1 ≤ maxIter →
+      ∀ i, i < nInit.toNat →
+      (classify i (initCenters (chooseOf i) mask nClusters.toNat)).length
+        = (if bipartite then nRow + nCol else nRow) ∧
+      ∀ l ∈ classify i (initCenters (chooseOf i) mask nClusters.toNat), l < nClusters.toNat) :
     KCentersOK bipartite nRow nCol pos nClusters.toNat (allLabelsK k) k.centers ∧
     (bipartite = true → CentersSplitOK nRow pos k.centers k.centersRow k.centersCol) ∧
     1 ≤ maxIter ∧ calls = nInit.toNat := by
@@ -353,9 +355,9 @@ theorem kcentersFitFull_spec {nClusters nInit maxIter : Int} {bipartite : Bool} 
           intro mask' hmask' r hr
           rw [hmask] at hmask'; cases hmask'
           obtain ⟨a, ha, rfl⟩ := List.mem_map.mp hr
-          obtain ⟨i, _, rfl⟩ := List.mem_map.mp ha
-          have hic := initCenters_spec (hch i) hn
-          exact ⟨⟨chooseOf i, hch i, rfl⟩, (hcl i _ hic.1 hic.2.1).1, (hcl i _ hic.1 hic.2.1).2⟩)
+          obtain ⟨i, hi, rfl⟩ := List.mem_map.mp ha
+          have hcli := hcl mask hchk hm i (List.mem_range.mp hi)
+          exact ⟨⟨chooseOf i, hch i, rfl⟩, hcli.1, hcli.2⟩)
         refine ⟨hspec.1, hspec.2, hm, ?_⟩
         rw [← hcalls, foldl_add_const _ attemptCalls 1]
         · simp
@@ -400,33 +402,64 @@ theorem rankReadout_spec {centers : List Nat} {scores : List (List Rat)} {l : Li
   unfold rankReadout at h
   split at h
   · cases h
-  rename_i hlen
+  split at h
+  · cases h
+  rename_i hlen hany
   cases h
   refine ⟨by simp, ?_⟩
   intro x hx
-  obtain ⟨row, _, rfl⟩ := List.mem_map.mp hx
-  have hpos : 0 < centers.length := by
-    have : ∀ y ∈ seedLabels centers, y < centers.length := fun y hy => mem_seedLabels_lt hy
-    cases hs : seedLabels centers with
-    | nil => rw [hs] at hlen; simp at hlen
-    | cons y ys => have := this y (by rw [hs]; simp); omega
-  by_cases hi : argmaxFirst row < (seedLabels centers).length
-  · rw [List.getD_eq_getElem?_getD, List.getElem?_eq_getElem hi, Option.getD_some]
-    exact mem_seedLabels_lt (List.getElem_mem hi)
-  · rw [List.getD_eq_getElem?_getD, List.getElem?_eq_none (Nat.le_of_not_lt hi)]
-    exact hpos
+  obtain ⟨row, hrow, rfl⟩ := List.mem_map.mp hx
+  have hi : argmaxFirst row < (seedLabels centers).length := by
+    by_contra hge
+    apply hany
+    rw [List.any_eq_true]
+    exact ⟨row, hrow, by simpa using Nat.le_of_not_lt hge⟩
+  rw [List.getD_eq_getElem?_getD, List.getElem?_eq_getElem hi, Option.getD_some]
+  exact mem_seedLabels_lt (List.getElem_mem hi)
 
-theorem classifyOf_spec {scores : Nat → List Nat → List (List Rat)} {i : Nat} {centers : List Nat}
-    (hk : 2 ≤ centers.length) (hnd : centers.Nodup) :
-    (classifyOf scores i centers).length = (scores i centers).length ∧
-    ∀ x ∈ classifyOf scores i centers, x < centers.length := by
-  unfold classifyOf
-  have hs : ¬ (seedLabels centers).length < 2 := by rw [seedLabels_of_nodup hnd]; simp; omega
-  cases hr : rankReadout centers (scores i centers) with
-  | error e =>
-    unfold rankReadout at hr
-    rw [if_neg hs] at hr; cases hr
-  | ok l => exact rankReadout_spec hr
+theorem argmaxFirst_go_lt (best : Rat) (bestIdx idx : Nat) (l : List Rat) (h : bestIdx < idx) :
+    argmaxFirst.go best bestIdx idx l < idx + l.length := by
+  induction l generalizing best bestIdx idx with
+  | nil => simp [argmaxFirst.go]; exact h
+  | cons y ys ih =>
+    unfold argmaxFirst.go
+    split
+    · have := ih y idx (idx + 1) (by omega); simp; omega
+    · have := ih best bestIdx (idx + 1) (by omega); simp; omega
+
+/-- `np.argmax` of a non-empty row is a position of the row -/
+theorem argmaxFirst_lt {row : List Rat} (h : row ≠ []) : argmaxFirst row < row.length := by
+  cases row with
+  | nil => exact absurd rfl h
+  | cons x xs =>
+    have := argmaxFirst_go_lt x 0 1 xs (by omega)
+    simp only [argmaxFirst, List.length_cons]; omega
+
+/-- distinct centres, at least two, and score rows no wider than the number of centres: the read-out succeeds -/
+theorem rankReadout_ok {centers : List Nat} {scores : List (List Rat)} (hk : 2 ≤ centers.length)
+    (hnd : centers.Nodup) (hw : ∀ row ∈ scores, row.length ≤ centers.length) :
+    ∃ l, rankReadout centers scores = .ok l := by
+  unfold rankReadout
+  have hs : (seedLabels centers).length = centers.length := by rw [seedLabels_of_nodup hnd]; simp
+  rw [if_neg (by omega)]
+  have hany : (scores.any fun row => decide ((seedLabels centers).length ≤ argmaxFirst row)) = false := by
+    rw [List.any_eq_false]
+    intro row hrow
+    simp only [decide_eq_true_eq]
+    rw [hs]
+    by_cases hne : row = []
+    · subst hne
+      have : argmaxFirst [] = 0 := rfl
+      rw [this]; omega
+    · have := argmaxFirst_lt hne
+      have := hw row hrow
+      omega
+  rw [hany]
+  exact ⟨_, rfl⟩
+
+theorem classifyOf_of_ok {scores : Nat → List Nat → List (List Rat)} {i : Nat} {centers : List Nat} {l : List Nat}
+    (h : rankReadout centers (scores i centers) = .ok l) : classifyOf scores i centers = l := by
+  simp [classifyOf, h]
 
 /-- ★★ `KCenters.fit` with the assignment modelled (no assumption on the labels): if it returns, then for any random
     choices and any score matrices with one row per node of the adjacency, *every* clause of C05 about k-centers
@@ -445,15 +478,24 @@ theorem kcentersFitScores_spec {nClusters nInit maxIter : Int} {bipartite : Bool
   | error e => rw [hchk] at h; cases h
   | ok mask =>
     rw [hchk] at h
-    obtain ⟨hnc, _, _, _⟩ := kcentersChecks_ok hchk
+    obtain ⟨hnc, _, _, hn⟩ := kcentersChecks_ok hchk
     simp only at h
     split at h
     · cases h
+    rename_i hfind
     apply kcentersFitFull_spec h hch
-    intro i centers hlen hnd
-    have hk : 2 ≤ centers.length := by omega
-    have := classifyOf_spec (scores := scores) (i := i) hk hnd
-    exact ⟨this.1.trans (hshape i centers), fun l hl => hlen ▸ this.2 l hl⟩
+    intro mask' hmask' hm i hi
+    rw [hchk] at hmask'; cases hmask'
+    rw [if_pos hm] at hfind
+    have hnone := List.findSome?_eq_none_iff.mp hfind i (List.mem_range.mpr hi)
+    have hic := initCenters_spec (hch i) hn
+    cases hr : rankReadout (initCenters (chooseOf i) mask nClusters.toNat)
+        (scores i (initCenters (chooseOf i) mask nClusters.toNat)) with
+    | error e => simp [readoutError, hr] at hnone
+    | ok l =>
+      rw [classifyOf_of_ok hr]
+      have := rankReadout_spec hr
+      exact ⟨this.1.trans (hshape i _), fun x hx => hic.1 ▸ this.2 x hx⟩
 
 /-- ★★ the same from the shape of the input: `get_adjacency` routing is part of the model -/
 theorem kcentersEstimator_spec {nClusters nInit maxIter : Int} {directed forceBipartite : Bool} {nRow nCol nnz : Nat}
@@ -485,5 +527,171 @@ theorem kcentersEstimator_spec {nClusters nInit maxIter : Int} {directed forceBi
     · intro hd
       simp [hd] at hdir
       exact hdir
+
+/-! ### total form: accepted arguments are accepted -/
+
+theorem kcentersChecks_of {nClusters nInit : Int} {bipartite : Bool} {nRow nCol : Nat} {pos : CenterPos}
+    {mask : List Bool} (hnc : 2 ≤ nClusters) (hni : 1 ≤ nInit)
+    (hmask : maskCenters bipartite nRow nCol pos = .ok mask)
+    (hcount : nClusters ≤ ((mask.filter id).length : Int)) :
+    kcentersChecks nClusters nInit bipartite nRow nCol pos = .ok mask := by
+  unfold kcentersChecks
+  rw [if_neg (by omega), if_neg (by omega), hmask]
+  simp only
+  rw [if_neg (by omega)]
+
+theorem kcentersFit_ok {nClusters nInit : Int} {bipartite : Bool} {nRow nCol : Nat} {pos : CenterPos}
+    {mask : List Bool} (hchk : kcentersChecks nClusters nInit bipartite nRow nCol pos = .ok mask)
+    (runs : List (List Nat × List Nat)) {idxMax : Nat} (hidx : idxMax < runs.length) :
+    ∃ k, kcentersFit nClusters nInit bipartite nRow nCol pos runs idxMax = .ok k := by
+  obtain ⟨hnc, hni, hmask, hn⟩ := kcentersChecks_ok hchk
+  have h1 : ¬ nClusters < 2 := by omega
+  have h2 : ¬ nInit < 1 := by omega
+  have h3 : ¬ nClusters > ((mask.filter id).length : Int) := by omega
+  unfold kcentersFit
+  simp only [bind, Except.bind, pure, Except.pure, h1, h2, h3, hmask, if_false, List.getElem?_eq_getElem hidx]
+  cases bipartite with
+  | false => exact ⟨_, rfl⟩
+  | true =>
+    cases pos with
+    | row => exact ⟨_, rfl⟩
+    | col => exact ⟨_, rfl⟩
+    | both => exact ⟨_, rfl⟩
+    | other => simp [maskCenters] at hmask
+
+/-- `KCenters.fit` for an abstract assignment: accepted arguments, `max_iter ≥ 1`, an in-range restart: it returns,
+    with one assignment per restart -/
+theorem kcentersFitFull_ok {nClusters nInit maxIter : Int} {bipartite : Bool} {nRow nCol : Nat} {pos : CenterPos}
+    {chooseOf : Nat → Nat → List Nat → Nat} (classify : Nat → List Nat → List Nat) {idxMax : Nat} {mask : List Bool}
+    (hchk : kcentersChecks nClusters nInit bipartite nRow nCol pos = .ok mask) (hm : 1 ≤ maxIter)
+    (hch : ∀ i, ChoiceOK (chooseOf i)) (hidx : idxMax < nInit.toNat) :
+    ∃ k, kcentersFitFull nClusters nInit maxIter bipartite nRow nCol pos chooseOf classify idxMax
+      = .ok (k, nInit.toNat) := by
+  obtain ⟨hnc, hni, hmask, hn⟩ := kcentersChecks_ok hchk
+  unfold kcentersFitFull
+  rw [hchk]
+  simp only
+  have hcent : ∀ i, (initCenters (chooseOf i) mask nClusters.toNat) ≠ [] := by
+    intro i hnil
+    have := (initCenters_spec (hch i) hn).1
+    rw [hnil] at this
+    simp at this; omega
+  have hatt : kcentersAttempts maxIter mask nClusters.toNat nInit.toNat chooseOf classify =
+      (List.range nInit.toNat).map fun i =>
+        ((initCenters (chooseOf i) mask nClusters.toNat,
+          some (some (classify i (initCenters (chooseOf i) mask nClusters.toNat)), 1)) : Attempt) := by
+    unfold kcentersAttempts
+    apply List.map_congr_left
+    intro i _
+    rw [kcentersAssign_eq (classify i) maxIter (hcent i) 1, if_pos hm]
+  rw [hatt]
+  have hany : (((List.range nInit.toNat).map fun i =>
+      ((initCenters (chooseOf i) mask nClusters.toNat,
+        some (some (classify i (initCenters (chooseOf i) mask nClusters.toNat)), 1)) : Attempt)).any attemptFailed)
+        = false := by
+    rw [List.any_eq_false]
+    intro a ha
+    obtain ⟨i, _, rfl⟩ := List.mem_map.mp ha
+    simp [attemptFailed]
+  rw [hany]
+  simp only [Bool.false_eq_true, if_false]
+  obtain ⟨k, hk⟩ := kcentersFit_ok hchk
+    (((List.range nInit.toNat).map fun i =>
+      ((initCenters (chooseOf i) mask nClusters.toNat,
+        some (some (classify i (initCenters (chooseOf i) mask nClusters.toNat)), 1)) : Attempt)).map attemptRun)
+    (idxMax := idxMax) (by simpa using hidx)
+  rw [hk]
+  refine ⟨k, ?_⟩
+  simp only [Except.ok.injEq, Prod.mk.injEq, true_and]
+  rw [foldl_add_const _ attemptCalls 1]
+  · simp
+  · intro a ha
+    obtain ⟨i, _, rfl⟩ := List.mem_map.mp ha
+    rfl
+
+/-- ★★ total form of `KCenters.fit` on the model: at least two clusters, at least one restart, `max_iter ≥ 1`, not
+    (`directed` on a non-square input), a stored entry, a known `center_position` with enough admissible nodes, an
+    in-range index of the best restart (what `np.argmax` returns), any random choices, score matrices with one row
+    per node and no more columns than centres: the fit *returns*, having computed one assignment per restart.
+    (What it returns is described by `kcentersEstimator_spec`.) -/
+theorem kcentersEstimator_total {nClusters nInit maxIter : Int} {directed forceBipartite : Bool} {nRow nCol nnz : Nat}
+    {pos : CenterPos} {chooseOf : Nat → Nat → List Nat → Nat} {scores : Nat → List Nat → List (List Rat)}
+    {idxMax : Nat} {mask : List Bool}
+    (hnc : 2 ≤ nClusters) (hni : 1 ≤ nInit) (hm : 1 ≤ maxIter) (hdir : directed = true → nRow = nCol)
+    (hnnz : 0 < nnz)
+    (hmask : maskCenters (forceBipartite || nRow != nCol) nRow nCol pos = .ok mask)
+    (hcount : nClusters ≤ ((mask.filter id).length : Int))
+    (hidx : idxMax < nInit.toNat) (hch : ∀ i, ChoiceOK (chooseOf i))
+    (hwidth : ∀ i centers, ∀ row ∈ scores i centers, row.length ≤ centers.length) :
+    ∃ k, kcentersEstimator nClusters nInit maxIter directed forceBipartite nRow nCol nnz pos chooseOf scores idxMax
+      = .ok (k, nInit.toNat) := by
+  have hchk := kcentersChecks_of hnc hni hmask hcount
+  obtain ⟨_, _, _, hn⟩ := kcentersChecks_ok hchk
+  unfold kcentersEstimator
+  rw [if_neg (by omega), if_neg (by omega)]
+  have hd : (directed && nRow != nCol) = false := by
+    cases directed with
+    | false => rfl
+    | true => simp [hdir rfl]
+  have hz : (nnz == 0) = false := by simp; omega
+  simp only [hd, Bool.false_eq_true, if_false, routeInput, hz]
+  unfold kcentersFitScores
+  rw [hchk]
+  simp only [if_pos hm]
+  have hfind : ((List.range nInit.toNat).findSome? fun i =>
+      readoutError (initCenters (chooseOf i) mask nClusters.toNat)
+        (scores i (initCenters (chooseOf i) mask nClusters.toNat))) = none := by
+    rw [List.findSome?_eq_none_iff]
+    intro i _
+    have hic := initCenters_spec (hch i) hn
+    obtain ⟨l, hl⟩ := rankReadout_ok (scores := scores i (initCenters (chooseOf i) mask nClusters.toNat))
+      (by rw [hic.1]; omega) hic.2.1 (hwidth i _)
+    simp [readoutError, hl]
+  rw [hfind]
+  exact kcentersFitFull_ok (classifyOf scores) hchk hm hch hidx
+
+/-- the number of admissible centres per `center_position` -/
+theorem maskCenters_count {bipartite : Bool} {nRow nCol : Nat} {pos : CenterPos} {mask : List Bool}
+    (h : maskCenters bipartite nRow nCol pos = .ok mask) :
+    (mask.filter id).length =
+      (if bipartite then (match pos with | .row => nRow | .col => nCol | _ => nRow + nCol) else nRow) := by
+  rw [← candidates_length]
+  have hcand : ∀ (n : Nat) (p : Nat → Bool), candidates (tab n p) = (List.range n).filter p := by
+    intro n p
+    unfold candidates
+    rw [tab_length]
+    apply List.filter_congr
+    intro i hi
+    rw [tab_getD, if_pos (List.mem_range.mp hi)]
+  have hall : ∀ n, ((List.range n).filter fun _ => true).length = n := by
+    intro n; rw [List.filter_eq_self.mpr (fun _ _ => rfl)]; simp
+  have hlt : ∀ a b, ((List.range (a + b)).filter fun i => decide (i < a)).length = a := by
+    intro a b
+    induction b with
+    | zero => rw [Nat.add_zero, List.filter_eq_self.mpr (fun i hi => by simpa using List.mem_range.mp hi)]; simp
+    | succ b ih =>
+      rw [← Nat.add_assoc, List.range_succ, List.filter_append, List.length_append, ih]
+      simp
+  have hge : ∀ a b, ((List.range (a + b)).filter fun i => decide (a ≤ i)).length = b := by
+    intro a b
+    induction b with
+    | zero =>
+      rw [Nat.add_zero, List.filter_eq_nil_iff.mpr (fun i hi => by
+        have := List.mem_range.mp hi; simp; omega)]; rfl
+    | succ b ih =>
+      rw [← Nat.add_assoc, List.range_succ, List.filter_append, List.length_append, ih]
+      simp
+  unfold maskCenters at h
+  cases bipartite with
+  | false =>
+    simp only [Bool.false_eq_true, if_false] at h ⊢
+    cases h; rw [hcand]; exact hall nRow
+  | true =>
+    simp only [if_true] at h ⊢
+    cases pos with
+    | row => cases h; rw [hcand]; exact hlt nRow nCol
+    | col => cases h; rw [hcand]; exact hge nRow nCol
+    | both => cases h; rw [hcand]; exact hall _
+    | other => cases h
 
 end SkNet.Clustering
